@@ -8,6 +8,16 @@ open TornadoModel.C06
 
 def key (n : Str) : Str := n.map lowerC
 
+/-- the display form of a field name, character by character ("Http-Header-Case"): a character is upper-cased
+    iff it is the first one or directly follows a `-`; every other character is lower-cased — in particular a
+    letter after a digit, `_`, `.`, `!`, `~`, `'` … is LOWER case (`P3p`, `X_forwarded_for`, `File.name`).
+    `start` = "the previous character was a `-` (or there is none)". -/
+def headerCase (start : Bool) : Str → Str
+  | [] => []
+  | c :: cs =>
+    if c = cDash then cDash :: headerCase true cs
+    else (if start then upperC c else lowerC c) :: headerCase false cs
+
 structure M where
   entries : List (Str × List Str) := []   -- key ↦ values; order = first insertion of the key
   last : Option Str := none               -- key of the last added field line (for obs-fold)
